@@ -500,7 +500,7 @@ func genMetric(r *rand.Rand, bad int, ts int64) *lmetric {
 	if hit() && len(m.fields) > 0 {
 		m.fields[r.Intn(len(m.fields))] = nil
 	}
-	if !influxish && (nf == 0 || r.Intn(5) == 0) && r.Intn(10) != 0 {
+	if nf == 0 && !hit() || !influxish && r.Intn(5) == 0 {
 		m.cf = genCompound(r, bad)
 	}
 	if hit() {
